@@ -179,7 +179,10 @@ class PrettyPrinter:
 
         aligned_max_indent = 0
         if self.align_values:
-            max_key_length = self.compute_max_key_length(d) + 2  # add length of quotes
+            # the keys of a key/value block are free text: every visible key counts
+            # (the keyword ignore list of compute_max_key_length only applies to composites)
+            key_lengths = [len(k) for k in d.keys() if not self.__is_metadata(k)]
+            max_key_length = max(key_lengths, default=0) + 2  # add length of quotes
             aligned_max_indent = self.compute_aligned_max_indent(max_key_length)
 
         for k, v in d.items():
